@@ -1178,6 +1178,8 @@ def check_C09(run, replay=None):
         if not model[i].startswith("model=Unexpressible(null-parameter)"):
             rest.append(i)
             continue
+        if impl[i].startswith("SKIP"):
+            continue
         c = cases[i]
         f = c.split(" ")
         sent = f[3]
